@@ -199,7 +199,8 @@ func (rs *RequestServer) Serve() error {
 
 	err := rs.serveLoop(pktChan)
 
-	wg.Wait() // wait for all workers to exit
+	wg.Wait()        // wait for all workers to exit
+	rs.pktMgr.wait() // wait for the responses of the last requests to be sent
 
 	rs.mu.Lock()
 	defer rs.mu.Unlock()
